@@ -58,6 +58,7 @@ namespace
         if (kind == "asmbad") return "garbage here";
         if (kind == "asmrecover") return "push SCALAR 1; endStatement;";
         if (kind == "napper") return "[] spawn {sleep 0.05; gX = 3;}; 7";
+        if (kind == "yielder") return "[] spawn { while {true} do { sleep 0 } }; 1";
         if (kind == "sleeper") return "[] spawn {sleep 10; gX = 6;}; 7";
         if (kind == "empty") return "";
         if (kind == "cfgok") return "class A { x = 1; };";
@@ -103,13 +104,18 @@ static void cmd_api(const J& c)
         {
             auto text = text_of(o.str("kind"));
             g_cb.any_call = true;
-            ret = sqfvm_load_config(h, text.data(), (uint32_t)text.size());
+            // the text is a slice of a larger buffer: what lies behind `length` is not part of it
+            auto len = text.size();
+            text += " ) ; class VdBeyond { beyond = 1; }; \" ) (";
+            ret = sqfvm_load_config(h, text.data(), (uint32_t)len);
         }
         else if (op == "call")
         {
             auto text = text_of(o.str("kind"));
             auto type = o.str("type", "s");
-            ret = sqfvm_call(h, g_cb.expect_call, type[0], text.data(), (uint32_t)text.size());
+            auto len = text.size();
+            text += " ) ; gX = 77; \" ) (";
+            ret = sqfvm_call(h, g_cb.expect_call, type[0], text.data(), (uint32_t)len);
         }
         J e = ev("Api");
         e.set("op", o).set("ret", (long long)ret).set("status", (long long)(h ? sqfvm_status(h) : -1)).set("out", g_cb.out)
